@@ -117,8 +117,15 @@ impl GraphBlock {
             GraphBlock::BlockQuote(blocks) => {
                 blocks_to_markdown_sparce(blocks, options)
                     .lines()
-                    .map(|line| format!("> {}", line))
-                    .map(|line| line.trim().to_string())
+                    // an empty line is a bare marker; other lines are kept as they are (a code
+                    // block inside the quote may hold lines that end in, or consist of, spaces)
+                    .map(|line| {
+                        if line.is_empty() {
+                            ">".to_string()
+                        } else {
+                            format!("> {}", line)
+                        }
+                    })
                     .collect::<Vec<String>>()
                     .join("\n")
                     + "\n"
